@@ -76,17 +76,17 @@ def ProgOK (cval : Cell → Ty) : List (Name × Decl) → List Op → Prop
 theorem inv_init (cval : Cell → Ty) : Inv cval State.init [] :=
   ⟨rfl, by intro p hp; simp [State.init] at hp, ParsersOK.nil⟩
 
-theorem useTop_spec {cval : Cell → Ty} (leaf : Val → Option Val) (fuel : Nat) {s : State} {defs : List (Name × Decl)}
+theorem useTop_spec {cval : Cell → Ty} (leaf : Val → Option Val) (chk : Nat → Val → Bool) (fuel : Nat) {s : State} {defs : List (Name × Decl)}
     (h : Inv cval s defs) {S : List Name} {k : Name} (hk : k ∈ S) (hS : Closed defs S) (kvs : List (Nat × Val)) :
-    (useTop Cfg.fixed leaf fuel s k kvs).2 = specParse leaf (envOf defs) fuel (.data k) (.dict kvs) ∧
-    Inv cval (useTop Cfg.fixed leaf fuel s k kvs).1 defs := by
+    (useTop Cfg.fixed leaf chk fuel s k kvs).2 = specParse leaf chk (envOf defs) fuel (.data k) (.dict kvs) ∧
+    Inv cval (useTop Cfg.fixed leaf chk fuel s k kvs).1 defs := by
   obtain ⟨s1, ps1, hr, hinv1, _, _⟩ := resolveParser_ok h hS hk
   simp only [useTop, hr]
-  exact parse_spec leaf hS fuel s1 (.data k) (.dict kvs) hinv1 (by simpa [TyIn] using hk)
+  exact parse_spec leaf chk hS fuel s1 (.data k) (.dict kvs) hinv1 (by simpa [TyIn] using hk)
 
-theorem run_spec {cval : Cell → Ty} (leaf : Val → Option Val) (fuel : Nat) :
+theorem run_spec {cval : Cell → Ty} (leaf : Val → Option Val) (chk : Nat → Val → Bool) (fuel : Nat) :
     ∀ (ops : List Op) (s : State) (defs : List (Name × Decl)), Inv cval s defs → ProgOK cval defs ops →
-    run Cfg.fixed leaf fuel s ops = specRun leaf fuel defs ops := by
+    run Cfg.fixed leaf chk fuel s ops = specRun leaf chk fuel defs ops := by
   intro ops
   induction ops with
   | nil => intro s defs _ _; rfl
@@ -100,7 +100,7 @@ theorem run_spec {cval : Cell → Ty} (leaf : Val → Option Val) (fuel : Nat) :
     | use k kvs =>
       simp only [ProgOK] at hp
       obtain ⟨⟨S, hk, hr, hd⟩, hrest⟩ := hp
-      obtain ⟨u1, u2⟩ := useTop_spec leaf fuel h hk (closed_of_reaches hr hd) kvs
+      obtain ⟨u1, u2⟩ := useTop_spec leaf chk fuel h hk (closed_of_reaches hr hd) kvs
       simp only [run, specRun]
       rw [← u1, ih _ _ u2 hrest]
 
@@ -108,14 +108,16 @@ theorem run_spec {cval : Cell → Ty} (leaf : Val → Option Val) (fuel : Nat) :
 declarations, any spelling of each reference, any definition order, any interleaving of uses — in
 which every use reaches only declarations that exist: every use returns exactly what the same
 declarations, read with direct references, return.  For every leaf converter and every fuel. -/
-theorem C17_resolved_eq_direct_partial (cval : Cell → Ty) (leaf : Val → Option Val) (fuel : Nat) (ops : List Op)
+theorem C17_resolved_eq_direct_partial (cval : Cell → Ty) (leaf : Val → Option Val) (chk : Nat → Val → Bool) (fuel : Nat) (ops : List Op)
     (h : ProgOK cval [] ops) :
-    run Cfg.fixed leaf fuel State.init ops = specRun leaf fuel [] ops :=
-  run_spec leaf fuel ops State.init [] (inv_init cval) h
+    run Cfg.fixed leaf chk fuel State.init ops = specRun leaf chk fuel [] ops :=
+  run_spec leaf chk fuel ops State.init [] (inv_init cval) h
 
 /-- The design's formulation: at a use that reaches only existing declarations, lazy resolution
-succeeds and leaves the parser with exactly the directly written field types (structural equality
-of `Ty`), nothing pending. -/
+succeeds and leaves the parser with exactly the directly written field types — structural equality
+of `Ty`, where a field declared with `Field(...)`/`Param(...)` constraints has the *constrained* type
+`Ty.con k t` (the `(annotation, constraints)` pair kept with a pending reference is what is installed) —
+inherited fields included, nothing pending. -/
 theorem C17_types_after_resolution {cval : Cell → Ty} {s : State} {defs : List (Name × Decl)} (h : Inv cval s defs)
     {S : List Name} {k : Name} (hk : k ∈ S) (hr : Reaches defs S) (hd : KnownDefect.localSibling defs S = false) :
     ∃ s1 ps1, resolveParser Cfg.fixed s k = (s1, true) ∧
@@ -133,6 +135,7 @@ theorem quoted_names_sub (a : Ann) : ∀ p ∈ quotedOf a, p.2 ∈ names a := by
   | quoted c n => intro p hp; simp [quotedOf] at hp; subst hp; simp [names]
   | list a => simpa [quotedOf, names] using quoted_names_sub a
   | dict a => simpa [quotedOf, names] using quoted_names_sub a
+  | con _ a => simpa [quotedOf, names] using quoted_names_sub a
   | tuple as => simpa [quotedOf, names] using quoted_namesL_sub as
   | union as => simpa [quotedOf, names] using quoted_namesL_sub as
   | _ => intro p hp; simp [quotedOf] at hp
@@ -225,10 +228,10 @@ spelling of each reference (bare, quoted inside any generic, whole string / post
 several ForwardRef objects of one name, objects shared between declarations), whatever the definition
 order and the order of uses, each use that reaches only existing declarations returns what the
 directly written declarations return — from the first call on. -/
-theorem C17_resolved_eq_direct (cval : Cell → Ty) (leaf : Val → Option Val) (fuel : Nat) (ops : List Op)
+theorem C17_resolved_eq_direct (cval : Cell → Ty) (leaf : Val → Option Val) (chk : Nat → Val → Bool) (fuel : Nat) (ops : List Op)
     (h : ProgOKModule cval [] ops) :
-    run Cfg.fixed leaf fuel State.init ops = specRun leaf fuel [] ops :=
-  C17_resolved_eq_direct_partial cval leaf fuel ops
+    run Cfg.fixed leaf chk fuel State.init ops = specRun leaf chk fuel [] ops :=
+  C17_resolved_eq_direct_partial cval leaf chk fuel ops
     (progOK_of_module ops [] (by intro p hp; simp at hp) h)
 
 /-! ### history independence: earlier uses (first-use order) cannot be observed -/
@@ -238,8 +241,8 @@ def defsOf : List Op → List (Name × Decl)
   | .defn k d :: ops => defsOf ops ++ [(k, d)]
   | .use _ _ :: ops => defsOf ops
 
-theorem specRun_append (leaf : Val → Option Val) (fuel : Nat) : ∀ (ops₁ ops₂ : List Op) (defs : List (Name × Decl)),
-    specRun leaf fuel defs (ops₁ ++ ops₂) = specRun leaf fuel defs ops₁ ++ specRun leaf fuel (defsOf ops₁ ++ defs) ops₂ := by
+theorem specRun_append (leaf : Val → Option Val) (chk : Nat → Val → Bool) (fuel : Nat) : ∀ (ops₁ ops₂ : List Op) (defs : List (Name × Decl)),
+    specRun leaf chk fuel defs (ops₁ ++ ops₂) = specRun leaf chk fuel defs ops₁ ++ specRun leaf chk fuel (defsOf ops₁ ++ defs) ops₂ := by
   intro ops₁
   induction ops₁ with
   | nil => intro ops₂ defs; simp [specRun, defsOf]
@@ -251,13 +254,13 @@ theorem specRun_append (leaf : Val → Option Val) (fuel : Nat) : ∀ (ops₁ op
 
 /-- Two programs that make the same declarations in the same order but use them differently before
 (other uses, other first-use order, no uses at all) answer a final use identically. -/
-theorem C17_first_use_order_irrelevant (cval : Cell → Ty) (leaf : Val → Option Val) (fuel : Nat)
+theorem C17_first_use_order_irrelevant (cval : Cell → Ty) (leaf : Val → Option Val) (chk : Nat → Val → Bool) (fuel : Nat)
     (ops₁ ops₂ : List Op) (k : Name) (kvs : List (Nat × Val))
     (h₁ : ProgOK cval [] (ops₁ ++ [.use k kvs])) (h₂ : ProgOK cval [] (ops₂ ++ [.use k kvs]))
     (hd : defsOf ops₁ = defsOf ops₂) :
-    (run Cfg.fixed leaf fuel State.init (ops₁ ++ [.use k kvs])).getLast? =
-    (run Cfg.fixed leaf fuel State.init (ops₂ ++ [.use k kvs])).getLast? := by
-  rw [C17_resolved_eq_direct_partial cval leaf fuel _ h₁, C17_resolved_eq_direct_partial cval leaf fuel _ h₂,
+    (run Cfg.fixed leaf chk fuel State.init (ops₁ ++ [.use k kvs])).getLast? =
+    (run Cfg.fixed leaf chk fuel State.init (ops₂ ++ [.use k kvs])).getLast? := by
+  rw [C17_resolved_eq_direct_partial cval leaf chk fuel _ h₁, C17_resolved_eq_direct_partial cval leaf chk fuel _ h₂,
       specRun_append, specRun_append, hd]
   simp [specRun]
 
@@ -292,13 +295,13 @@ theorem lookupD_perm (k : Name) {l₁ l₂ : List (Name × Decl)} (hp : l₁.Per
 
 /-- Two programs that make the same declarations (distinct names) in a different order answer a
 final use identically. -/
-theorem C17_definition_order_irrelevant (cval : Cell → Ty) (leaf : Val → Option Val) (fuel : Nat)
+theorem C17_definition_order_irrelevant (cval : Cell → Ty) (leaf : Val → Option Val) (chk : Nat → Val → Bool) (fuel : Nat)
     (ops₁ ops₂ : List Op) (k : Name) (kvs : List (Nat × Val))
     (h₁ : ProgOK cval [] (ops₁ ++ [.use k kvs])) (h₂ : ProgOK cval [] (ops₂ ++ [.use k kvs]))
     (hperm : (defsOf ops₁).Perm (defsOf ops₂)) (hnd : ((defsOf ops₁).map (·.1)).Nodup) :
-    (run Cfg.fixed leaf fuel State.init (ops₁ ++ [.use k kvs])).getLast? =
-    (run Cfg.fixed leaf fuel State.init (ops₂ ++ [.use k kvs])).getLast? := by
-  rw [C17_resolved_eq_direct_partial cval leaf fuel _ h₁, C17_resolved_eq_direct_partial cval leaf fuel _ h₂,
+    (run Cfg.fixed leaf chk fuel State.init (ops₁ ++ [.use k kvs])).getLast? =
+    (run Cfg.fixed leaf chk fuel State.init (ops₂ ++ [.use k kvs])).getLast? := by
+  rw [C17_resolved_eq_direct_partial cval leaf chk fuel _ h₁, C17_resolved_eq_direct_partial cval leaf chk fuel _ h₂,
       specRun_append, specRun_append]
   have hdf : ∀ (n : Nat) (k' : Name), directFieldsF n (defsOf ops₁) k' = directFieldsF n (defsOf ops₂) k' := by
     intro n
@@ -322,6 +325,7 @@ def Ann.toDirect : Ann → Ann
   | .quoted _ n => .name n
   | .list a => .list a.toDirect
   | .dict a => .dict a.toDirect
+  | .con k a => .con k a.toDirect
   | .tuple as => .tuple (toDirectL as)
   | .union as => .union (toDirectL as)
   | a => a
@@ -420,10 +424,11 @@ theorem envOf_dirDefs (defs : List (Name × Decl)) : envOf (dirDefs defs) = envO
   | none => rfl
   | some d =>
     have hlen : (dirDefs defs).length = defs.length := by simp [dirDefs]
-    simp [hlen, directFieldsF_dirDefs]
+    have hrule : d.toDirect.rule = d.rule := rfl
+    simp [hlen, directFieldsF_dirDefs, hrule]
 
-theorem specRun_toDirect (leaf : Val → Option Val) (fuel : Nat) : ∀ (ops : List Op) (defs : List (Name × Decl)),
-    specRun leaf fuel (dirDefs defs) (ops.map Op.toDirect) = specRun leaf fuel defs ops := by
+theorem specRun_toDirect (leaf : Val → Option Val) (chk : Nat → Val → Bool) (fuel : Nat) : ∀ (ops : List Op) (defs : List (Name × Decl)),
+    specRun leaf chk fuel (dirDefs defs) (ops.map Op.toDirect) = specRun leaf chk fuel defs ops := by
   intro ops
   induction ops with
   | nil => intro _; rfl
@@ -490,12 +495,12 @@ theorem progOK_toDirect (cval : Cell → Ty) : ∀ (ops : List Op) (defs : List 
 
 /-- **C17 in the words of the property.**  A program and the same program with every reference
 written directly behave identically on every input, use by use. -/
-theorem C17_same_as_direct_spelling (cval : Cell → Ty) (leaf : Val → Option Val) (fuel : Nat) (ops : List Op)
+theorem C17_same_as_direct_spelling (cval : Cell → Ty) (leaf : Val → Option Val) (chk : Nat → Val → Bool) (fuel : Nat) (ops : List Op)
     (h : ProgOK cval [] ops) :
-    run Cfg.fixed leaf fuel State.init ops = run Cfg.fixed leaf fuel State.init (ops.map Op.toDirect) := by
-  rw [C17_resolved_eq_direct_partial cval leaf fuel ops h,
-      C17_resolved_eq_direct_partial cval leaf fuel _ (progOK_toDirect cval ops [] h)]
-  exact (specRun_toDirect leaf fuel ops []).symm
+    run Cfg.fixed leaf chk fuel State.init ops = run Cfg.fixed leaf chk fuel State.init (ops.map Op.toDirect) := by
+  rw [C17_resolved_eq_direct_partial cval leaf chk fuel ops h,
+      C17_resolved_eq_direct_partial cval leaf chk fuel _ (progOK_toDirect cval ops [] h)]
+  exact (specRun_toDirect leaf chk fuel ops []).symm
 
 /-! ### negation witnesses (replayed on the real code by the harness: findings.d/C17.json, corpus)
 and non-vacuity of every hypothesis -/
@@ -503,6 +508,13 @@ and non-vacuity of every hypothesis -/
 def leaf0 : Val → Option Val
   | .int i => some (.int i)
   | _ => none
+
+/-- constraint 3 = "at most 3" on ints, 4 = "at most one element" on lists; everything else holds -/
+def chk0 (c : Nat) (v : Val) : Bool :=
+  match c, v with
+  | 3, .int i => i ≤ 3
+  | 4, .list xs => xs.length ≤ 1
+  | _, _ => true
 
 def Outcome.kind : Outcome → Nat
   | .ok _ => 0
@@ -523,8 +535,8 @@ def progMulti : List Op :=
 /-- Before fixes/C17-multiuse.patch: `setdefault` keeps only the first ForwardRef object of the name,
 the second annotation fails although the directly written declaration parses. -/
 theorem C17_legacy_multiuse_witness :
-    (run Cfg.legacy leaf0 10 State.init progMulti).map Outcome.kind = [1] ∧
-    (specRun leaf0 10 [] progMulti).map Outcome.kind = [0] := by decide
+    (run Cfg.legacy leaf0 chk0 10 State.init progMulti).map Outcome.kind = [1] ∧
+    (specRun leaf0 chk0 10 [] progMulti).map Outcome.kind = [0] := by decide
 
 /-- a class made inside a factory function (`<locals>` in its qualname, bound to its name):
 `f0: Optional['B']`, B declared later at module level -/
@@ -536,8 +548,8 @@ def progUnion : List Op :=
 /-- Before fixes/C17-union-resolve.patch (keys already unique): the Optional member is never replaced
 and the local class un-evaluates the ForwardRef object after resolving it. -/
 theorem C17_legacy_union_witness :
-    (run ⟨true, false, true⟩ leaf0 10 State.init progUnion).map Outcome.kind = [1] ∧
-    (specRun leaf0 10 [] progUnion).map Outcome.kind = [0] := by decide
+    (run ⟨true, false, true⟩ leaf0 chk0 10 State.init progUnion).map Outcome.kind = [1] ∧
+    (specRun leaf0 chk0 10 [] progUnion).map Outcome.kind = [0] := by decide
 
 /-- class A (name 0): `f0: 'B'`;  class C (name 2) inherits from A;  B is declared last -/
 def progInherit : List Op :=
@@ -549,8 +561,8 @@ def progInherit : List Op :=
 /-- Before fixes/C17-inherited-refs.patch: the subclass, used before its base was ever parsed, still
 holds the base's unevaluated ForwardRef. -/
 theorem C17_legacy_inherited_witness :
-    (run ⟨true, true, false⟩ leaf0 10 State.init progInherit).map Outcome.kind = [1] ∧
-    (specRun leaf0 10 [] progInherit).map Outcome.kind = [0] := by decide
+    (run ⟨true, true, false⟩ leaf0 chk0 10 State.init progInherit).map Outcome.kind = [1] ∧
+    (specRun leaf0 chk0 10 [] progInherit).map Outcome.kind = [0] := by decide
 
 /-- three levels: Document (0) names 'Person' (3); Article(Document) (1) and BlogPost(Article) (2) add
 plain fields only; Person is declared last and the most derived class is the first one used -/
@@ -572,13 +584,13 @@ def progDiamond : List Op :=
 
 /-- Before fixes/C17-inherited-refs.patch a chain of any length fails at its far end … -/
 theorem C17_legacy_chain_witness :
-    (run ⟨true, true, false⟩ leaf0 10 State.init progChain).map Outcome.kind = [1] ∧
-    (specRun leaf0 10 [] progChain).map Outcome.kind = [0] := by decide
+    (run ⟨true, true, false⟩ leaf0 chk0 10 State.init progChain).map Outcome.kind = [1] ∧
+    (specRun leaf0 chk0 10 [] progChain).map Outcome.kind = [0] := by decide
 
 /-- … with the fix the whole family resolves from the first call on the most derived class -/
-example : (run Cfg.fixed leaf0 10 State.init progChain).map Outcome.kind = [0] ∧
-          (run Cfg.fixed leaf0 10 State.init progDiamond).map Outcome.kind = [0] ∧
-          (specRun leaf0 10 [] progDiamond).map Outcome.kind = [0] := by decide
+example : (run Cfg.fixed leaf0 chk0 10 State.init progChain).map Outcome.kind = [0] ∧
+          (run Cfg.fixed leaf0 chk0 10 State.init progDiamond).map Outcome.kind = [0] ∧
+          (specRun leaf0 chk0 10 [] progDiamond).map Outcome.kind = [0] := by decide
 
 /-- both classes live only in a function scope; A names its sibling B through a string -/
 def progLocal : List Op :=
@@ -589,8 +601,8 @@ def progLocal : List Op :=
 /-- Finding `local-sibling-ref` (current code): NameError at the first parse, although B exists and
 the directly written declaration parses.  The full statement is false of the code … -/
 theorem C17_local_sibling_witness :
-    (run Cfg.fixed leaf0 10 State.init progLocal).map Outcome.kind = [2] ∧
-    (specRun leaf0 10 [] progLocal).map Outcome.kind = [0] := by decide
+    (run Cfg.fixed leaf0 chk0 10 State.init progLocal).map Outcome.kind = [2] ∧
+    (specRun leaf0 chk0 10 [] progLocal).map Outcome.kind = [0] := by decide
 
 /-- … and this program is exactly what the decidable hypothesis of the partial theorem excludes. -/
 theorem C17_local_sibling_is_known_defect :
@@ -598,9 +610,9 @@ theorem C17_local_sibling_is_known_defect :
                               (1, { declB with isLocal := true, bound := false })] [0, 1] = true := by decide
 
 /-- with the fixes the three programs that are not in function scope behave as written directly -/
-example : (run Cfg.fixed leaf0 10 State.init progMulti).map Outcome.kind = [0] ∧
-          (run Cfg.fixed leaf0 10 State.init progUnion).map Outcome.kind = [0] ∧
-          (run Cfg.fixed leaf0 10 State.init progInherit).map Outcome.kind = [0] := by decide
+example : (run Cfg.fixed leaf0 chk0 10 State.init progMulti).map Outcome.kind = [0] ∧
+          (run Cfg.fixed leaf0 chk0 10 State.init progUnion).map Outcome.kind = [0] ∧
+          (run Cfg.fixed leaf0 chk0 10 State.init progInherit).map Outcome.kind = [0] := by decide
 
 /-- Non-vacuity: the hypotheses of `C17_resolved_eq_direct` (hence of the partial theorem) hold for a
 program that exercises the lazy path — forward reference, two ForwardRef objects of one name. -/
@@ -625,6 +637,19 @@ example : ProgOKModule (fun _ => .data 1) [] progMulti := by
     rcases hk with rfl | rfl
     · exact ⟨declA2, by simp [lookupD], by simp [Decl.allNames, declA2, FieldAnn.allNames, names], by simp [declA2]⟩
     · exact ⟨declB, by simp [lookupD], by simp [Decl.allNames, declB, FieldAnn.allNames, names], by simp [declB]⟩
+
+/-- `class A: f0: 'Q' = Field(le=3); f1: List['Q'] = Field(max_length=1)`, then the constrained scalar type
+`class Q(int, Rule)` (name 1) is declared; uses at and beyond the bounds -/
+def progCon : List Op :=
+  [.defn 0 { fields := [(0, .str 7 (.con 3 (.name 1))), (1, .plain (.con 4 (.list (.quoted 2 1))))] },
+   .defn 1 { fields := [], rule := some 0 },
+   .use 0 [(0, .int 3)], .use 0 [(0, .int 4)],
+   .use 0 [(1, .list [.int 9])], .use 0 [(1, .list [.int 9, .int 9])]]
+
+/-- the constraints declared with a forward reference survive its lazy resolution: same verdicts as
+the directly written declaration, at the bound and beyond it -/
+example : (run Cfg.fixed leaf0 chk0 10 State.init progCon).map Outcome.kind = [0, 1, 0, 1] ∧
+          (specRun leaf0 chk0 10 [] progCon).map Outcome.kind = [0, 1, 0, 1] := by decide
 
 def declDoc : Decl := { fields := [(0, .str 7 (.name 3)), (1, .plain (.list (.quoted 1 3)))] }
 def declArt : Decl := { fields := [(2, .plain .int)], bases := [0] }
